@@ -284,3 +284,34 @@ Section ReadCacheProofs.
     apply lv_run_ok; [exact Hall|]. intros j t H. destruct j; discriminate H.
   Qed.
 End ReadCacheProofs.
+
+(* ------------------------------------------------------------------------------------------------ *)
+(** * 4. several tables are one table over a sum type *)
+
+Section SumTables.
+  Context {A1 K1 V1 A2 K2 V2 : Type}.
+  Variable f1 : A1 -> V1.
+  Variable key1 : A1 -> K1.
+  Variable c1 : A1 -> bool.
+  Variable keep1 : V1 -> bool.
+  Variable f2 : A2 -> V2.
+  Variable key2 : A2 -> K2.
+  Variable c2 : A2 -> bool.
+  Variable keep2 : V2 -> bool.
+
+  Definition sum_f (a : A1 + A2) : V1 + V2 := match a with inl x => inl (f1 x) | inr y => inr (f2 y) end.
+  Definition sum_key (a : A1 + A2) : K1 + K2 := match a with inl x => inl (key1 x) | inr y => inr (key2 y) end.
+  Definition sum_cacheable (a : A1 + A2) : bool := match a with inl x => c1 x | inr y => c2 y end.
+  Definition sum_keep (v : V1 + V2) : bool := match v with inl x => keep1 x | inr y => keep2 y end.
+
+  (* a Font is a product of tables; if every table's key captures its loader's inputs, so does the sum *)
+  Lemma key_captures_sum :
+    key_captures f1 key1 c1 keep1 -> key_captures f2 key2 c2 keep2 ->
+    key_captures sum_f sum_key sum_cacheable sum_keep.
+  Proof.
+    intros H1 H2 [a | a] [b | b] Ha Hb Hk Hkeep; cbn [sum_f sum_key sum_cacheable sum_keep] in *;
+      try discriminate.
+    - f_equal. apply H1; auto. congruence.
+    - f_equal. apply H2; auto. congruence.
+  Qed.
+End SumTables.
